@@ -6,34 +6,8 @@
 From Coq Require Import Lia ZArith ZifyN ZifyBool ZifyNat Sorted.
 From Grenad.gen Require Import Consts.
 From Grenad.model Require Import Base Varint Block Trailer Writer Reader Spec Format.
-From Grenad.proofs Require Import BaseProofs BlockProofs FormatProofs TrailerProofs BlockCursorProofs WriterInv WriterLayout WriterTree ReaderRefine.
+From Grenad.proofs Require Import BaseProofs SortedFacts BlockProofs FormatProofs TrailerProofs BlockCursorProofs WriterInv WriterLayout WriterTree ReaderRefine.
 Ltac Zify.zify_post_hook ::= Z.div_mod_to_equations.
-
-(* ---- strict sortedness as a relation ---- *)
-Definition blt (a b : bytes) : Prop := bytes_ltb a b = true.
-
-Lemma sorted_strictb_SS l : sorted_strictb l = true <-> StronglySorted blt l.
-Proof.
-  split.
-  - induction l as [|a l IH]; intro H; [constructor|].
-    apply sorted_strictb_cons in H. destruct H as [H1 H2].
-    constructor; [apply IH; exact H1|]. apply Forall_forall. exact H2.
-  - induction 1 as [|a l Hs IH Hf]; [reflexivity|].
-    destruct l as [|b r]; [reflexivity|].
-    cbn [sorted_strictb] in *. apply andb_true_intro. split; [|exact IH].
-    inversion Hf; subst. assumption.
-Qed.
-
-Lemma SS_app_inv {A} (R : A -> A -> Prop) l1 l2 : StronglySorted R (l1 ++ l2) ->
-  StronglySorted R l1 /\ StronglySorted R l2 /\ (forall x y, In x l1 -> In y l2 -> R x y).
-Proof.
-  induction l1 as [|a l1 IH]; cbn [app]; intro H.
-  - split; [constructor|]. split; [exact H|]. intros x y [].
-  - inversion H as [|? ? Hs Hf]; subst. destruct (IH Hs) as (A1 & A2 & A3).
-    rewrite Forall_forall in Hf.
-    split; [constructor; [exact A1|]; apply Forall_forall; intros x Hx; apply Hf; apply in_or_app; left; exact Hx|].
-    split; [exact A2|]. intros x y [<-|Hx] Hy; [apply Hf; apply in_or_app; right; exact Hy|apply A3; assumption].
-Qed.
 
 Lemma last_opt_nonempty {A} (l : list A) : l <> [] -> exists a l', l = l' ++ [a] /\ last_opt l = Some a.
 Proof.
